@@ -57,6 +57,50 @@ CHECKS = {
                 technique="TLA+ trace validation (TLC) of recorded locators + peer-reply probe"),
 }
 
+SESS_NOTE = ("Trusted: TLC; the scripted peer's own framing code; net.Pipe. The scripted peer waits for the handshake goroutine to "
+             "go quiet after version/verack, so asynchronous interleavings are covered by the exhaustive PeerSession cfg only; "
+             "timeouts (3 s handshake, 10 min ping, 4 h node) are not exercised.")
+
+CHECKS.update({
+    "C04": dict(level="model_checking", engine="blockverify", ref="3 C04",
+                text="SideEffectsOnlyIfVerified / ConfirmsAreRelevantInOrderOnce / EveryProofVerifies / Terminates checked by TLC "
+                     "over every case of BlockVerify.tla (committed block x relevant subset x corrupted stream x announced count "
+                     "x fault), merkle roots as terms; every one of those cases is then executed with real transactions on a "
+                     "real BlockDownloader.HandleBlock and the recorded processor / store calls, proofs (Verify, txid, header) "
+                     "and Complete value are compared with the spec.",
+                technique="TLA+ model checking (TLC) + exhaustive case replay on the real block downloader",
+                note="Trusted: TLC; SHA-256 collision freedom (roots are terms); the harness's own merkle root computation; "
+                     "MerkleProof.Verify of the dependency. The node-side framing of block messages is covered by C14/C16."),
+    "C06": dict(level="model_checking", engine="txmanager", ref="3 C06",
+                text="ForwardedAtMostOnce, OnePeerPerStep, NeverAfterDelivery, Requestable, OneOutstandingPerWindow, "
+                     "OnlyAnnouncersAsked, HeldBackStaysDue checked by TLC on TxManager.tla; every call sequence up to the BFS "
+                     "depth plus simulated deeper ones replayed on the real TxManager (replies, processor and saver counts); "
+                     "rounds of concurrent calls recorded from the real TxManager are linearized by TLC (TxManagerLin).",
+                technique="TLA+ model checking (TLC) + behaviour replay + linearization of concurrent traces by TLC",
+                note="Trusted: TLC. One Tick = VerifAgeRequests(request timeout); real time between calls is microseconds "
+                     "against a one hour timeout. TxManager.Clean is outside the property."),
+    "C13": dict(level="model_checking", engine="session", ref="3 C13",
+                text="NoSinkBeforeReady, ReadyNeedsHandshakeAndBSV, VerifyOnlyDisconnects checked by TLC on PeerSession.tla "
+                     "(read loop + asynchronous handshake goroutine); sessions enumerated by TLC (all classes, BFS and "
+                     "simulation, full and verify-only nodes, with and without tx manager) are played by a scripted peer against "
+                     "a real BitcoinNode over net.Pipe with spies on the header repository, address book and tx processor.",
+                technique="TLA+ model checking (TLC) + spec-generated sessions replayed on the real node", note=SESS_NOTE),
+    "C14": dict(level="model_checking", engine="session", ref="3 C14",
+                text="PingAnswered, NeverDeafWhileReady, InSyncWhileReady checked by TLC on PeerSession.tla; conformant "
+                     "sessions of a verified peer over the full command set (known / unknown / handler-less commands, classic and "
+                     "extended framing, payload sizes 0..64 KiB, 4 MiB in thorough, repetition runs) are played against the real "
+                     "node; after every message a ping must be answered with its nonce.",
+                technique="TLA+ model checking (TLC) + spec-generated sessions replayed on the real node", note=SESS_NOTE),
+    "C20": dict(level="model_checking", engine="peerbook", ref="3 C20",
+                text="NoDuplicates, GetExact, SaveLoadSame, CutKeepsPrefix, ScoreIsSum checked by TLC on PeerBook.tla; simulated "
+                     "call sequences replayed on the real StoragePeerRepository with the whole book compared after every call; "
+                     "every proper prefix of every saved file loaded (fault enumeration); generated hostile files loaded in "
+                     "isolated worker processes; concurrent callers linearized by TLC (PeerBookLin).",
+                technique="TLA+ model checking (TLC) + behaviour replay + file-prefix enumeration + linearization by TLC",
+                note="Trusted: TLC. Last-seen times are wall-clock seconds: compared as zero/non-zero with the spec and for "
+                     "exact equality across Save+Load."),
+})
+
 NOT_APPLICABLE = []
 
 
@@ -99,6 +143,14 @@ def main():
              "serves_properties": ["C01", "C07", "C08", "C09", "C10", "C11", "C12", "C17", "C19"],
              "kind_free_text": "specs/HeaderChain.tla (exhaustive TLC), specs/HeaderChainGen.tla (behaviour generation), "
                                "harness `hdr` replay on the real headers.Repository, specs/HeaderLocatorTrace.tla"},
+            {"name": "blockverify", "path": "lib/prop_c04.py", "serves_properties": ["C04"],
+             "kind_free_text": "specs/BlockVerify.tla, harness `blk` on the real BlockDownloader"},
+            {"name": "txmanager", "path": "lib/prop_c06.py", "serves_properties": ["C06"],
+             "kind_free_text": "specs/TxManager.tla, TxManagerGen.tla, TxManagerLin.tla, harness `txm` / `txmc`"},
+            {"name": "session", "path": "lib/engine_session.py", "serves_properties": ["C13", "C14"],
+             "kind_free_text": "specs/PeerSession.tla, PeerSessionGen.tla, harness `sess` (scripted peer over net.Pipe)"},
+            {"name": "peerbook", "path": "lib/prop_c20.py", "serves_properties": ["C20"],
+             "kind_free_text": "specs/PeerBook.tla, PeerBookGen.tla, PeerBookLin.tla, harness `peers` / `peersbytes` / `peersconc`"},
         ],
         "checks": checks,
         "not_applicable": na,
